@@ -217,6 +217,9 @@ def check(run):
             for st_, g_, lps_ in ir.guarded_statements(wr["body"], env):
                 if st_.get("k") != "Return" or order_.get(id(st_), 0) > order_[id(loops[0])]:
                     continue
+                if any(a_ == ("not", ("nz", "this.%s.avail_in" % sp["stream"])) or a_ == ("cmp", "==", "this.%s.avail_in" % sp["stream"], "0") or
+                       a_ == ("cmp", "==", "0", "this.%s.avail_in" % sp["stream"]) for a_ in conjuncts(g_)):
+                    continue            # leaves only when nothing is left to consume: the loop's own exit condition
                 taken = [ir.eval_formula(g_, {size_key: v_}) for v_ in (1, 2, 100, 2048, 8128, 16384, 65536, 1 << 24)]
                 if any(t_ is True for t_ in taken):
                     ok = False
